@@ -77,7 +77,9 @@ def run_impl_(sc):
         # pickle needs importable classes: the scenario source lives in a real module object
         mod = types.ModuleType(MODNAME)
         sys.modules[MODNAME] = mod
-        src = eng.render_source(sc).replace("class M(StateMachine):", "class M(StateMachine):\n    custom_note = 'class-level'")
+        # (late_allow: the machine is constructed with the opposite of allow_event_without_transition and the
+        # public attribute is set to the scenario's value right afterwards)
+        src = eng.render_source(dict(sc, allow=not sc.get("allow")) if sc.get("late_allow") else sc).replace("class M(StateMachine):", "class M(StateMachine):\n    custom_note = 'class-level'")
         exec(compile(src, "<c17>", "exec"), mod.__dict__)  # noqa: S102
         for name in ("M", "Mdl"):
             getattr(mod, name).__module__ = MODNAME
@@ -150,6 +152,8 @@ def run_impl_(sc):
                     setattr(objs[p], eng.cbname([kind, k]), eng.from_json(dflt["r"]))
         if sm is not None:
             assign_attrs(sm, model, listeners)
+            if sc.get("late_allow"):
+                sm.allow_event_without_transition = bool(sc.get("allow"))
         pre = [observe(sm, model, out)]
         if sm is None:
             eng.RUN = None
@@ -199,6 +203,14 @@ def run_impl_(sc):
             bad.append("custom attribute not copied")
         if getattr(clone, "_private_note", None) != ["kept", 3] or clone._private_note is sm._private_note:
             bad.append("private custom attribute not copied")
+        for who, m in (("original", sm), ("clone", clone)):
+            try:
+                cur = m.current_state.id
+            except Exception:  # noqa: BLE001 - no current state (async machine not activated yet)
+                continue
+            act = [st.id for st in m.states if getattr(m, st.id).is_active]
+            if act != [cur]:
+                bad.append(f"{who}: current state {cur}, states reporting is_active: {act}")
         if type(clone._engine) is not type(sm._engine):
             bad.append(f"engine kind differs: {type(sm._engine).__name__} -> {type(clone._engine).__name__}")
         # ---- diverging suffixes, alternately
@@ -282,6 +294,7 @@ def generate(rng, tier):
         sc["inst_attrs"] = rng.random() < 0.6
         add_late(sc, rng, 0.9 if many else 0.5)
         sc["observer_alias"] = rng.random() < 0.3
+        sc["late_allow"] = rng.random() < 0.4 and eng.total_sends(sc) == 0     # (no event is processed by the constructor)
         sc["bound_model"] = rng.random() < 0.3
         # guards provided both by machine/model and by a listener regroup on the clone (D19): keep each
         # guard name within one of the two sides
